@@ -47,6 +47,8 @@ class CryptContext:
     @functools.cached_property
     def _deprecated_schemes(self) -> Sequence[PasswordHasher]:
         if self._deprecated == "auto":
-            return self._schemes[1:]
+            # NOTE: the default scheme is never deprecated, even when the same object is listed again
+            default = self._default_scheme
+            return [scheme for scheme in self._schemes[1:] if scheme is not default]
 
         typing_extensions.assert_never(self._deprecated)
